@@ -190,8 +190,14 @@ func c16Run(c *Ctx, idx int, seed int64, sc *c16Scenario, dir string, count bool
 	positive := map[string]bool{} // names with a positive poll answer handed to the broker
 	lastCode := map[string]int{}  // the latest poll verdict per name
 	var s *sender
+	pendingStop := false
 	sendStop := func() {
 		if stopped {
+			return
+		}
+		if s == nil {
+			// the sender's first actions run before startSender has returned
+			pendingStop = true
 			return
 		}
 		stopped = true
@@ -218,7 +224,15 @@ func c16Run(c *Ctx, idx int, seed int64, sc *c16Scenario, dir string, count bool
 		lastCode[name] = code
 		mu.Unlock()
 	}
-	s = w.startSender()
+	{
+		ns := w.startSender()
+		mu.Lock()
+		s = ns
+		if pendingStop {
+			sendStop()
+		}
+		mu.Unlock()
+	}
 	if sc.StopAt == 0 {
 		mu.Lock()
 		sendStop()
